@@ -59,6 +59,52 @@ CHECKS = {
                      "query limit respected, watch/stop announcements well-formed and present before events are needed, "
                      "legacy descriptor sets equal to the open sockets that matter.",
                 note="Descriptor numbers are never reused by the virtual layer; a failing close() releases the descriptor."),
+    "C08": dict(engine="simnet", category="exploration", design_ref="DESIGN.md §4 C08",
+                technique="runtime monitoring in a deterministic simulator: provenance serial in every response + cache "
+                          "soundness model (key, rcode/TC, lifetime, reconfiguration epoch, TTL decrement) over virtual time",
+                text="Held on the seeded cache histories explored: every record delivered to a request that was started after "
+                     "the carrying packet was injected (a cache replay) matched the request's name/type/class/RD/CD, came "
+                     "from a NOERROR/NXDOMAIN non-truncated response, was younger than min(qcache_max_ttl, its own TTLs / "
+                     "SOA minimum), was not older than the last server-list change or reinit, never occurred with max_ttl "
+                     "0, and showed TTL = original - seconds cached through send/query/search/getaddrinfo forms. "
+                     "Soundness only (a cache may always miss).",
+                note="Virtual clock; whole-second ages as the cache itself uses."),
+    "C12": dict(engine="simnet", category="exploration", design_ref="DESIGN.md §4 C12",
+                technique="runtime monitoring in a deterministic simulator: observed question sequence at the virtual server "
+                          "vs. an independent resolv.conf(5) reference model",
+                text="Held on the seeded (near-exhaustive for <=4 candidates) product of name shape x ndots x domain list x "
+                     "flags x alias file x entry point x per-candidate outcome vector: the ordered candidate names asked, "
+                     "the stop point and the final status equalled the model; local names (literals, localhost, .onion) "
+                     "produced no question.",
+                note="A and AAAA of one candidate get the same outcome class; candidates that do not fit on the wire end the "
+                     "comparison (status unspecified by the statement)."),
+    "C15": dict(engine="cfg", category="exploration", design_ref="DESIGN.md §4 C15",
+                technique="runtime monitoring: generated/junk configuration text through the real init/reinit path with "
+                          "link-time redirected files+environment, effective-configuration read-back, range oracle, metamorphic "
+                          "line-independence oracle, counting-allocator ledger, ASan/UBSan/LSan",
+                text="Held on the generated inputs explored: arbitrary and grammar-aware junk in resolv.conf, nsswitch/netsvc/"
+                     "svc.conf, hosts, host-aliases, RES_OPTIONS, LOCALDOMAIN, sortlist and server strings never crashed, "
+                     "leaked (exact ledger) or hung initialisation and gave an error or an in-range configuration; inserting "
+                     "comment/blank/unknown/malformed lines into valid files left the effective configuration (after init and "
+                     "after reinit) and all hosts/alias lookups unchanged; failed setters left the previous value in place.",
+                note="fopen/stat/getenv/gethostname/socket are interposed at link time; ground truth is the channel's fields "
+                     "read through ares_private.h."),
+    "C16": dict(engine="cfg", category="exploration", design_ref="DESIGN.md §4 C16",
+                technique="runtime monitoring: effective-configuration read-back equality across save->init, dup, csv->set->csv; "
+                          "user-wins differential against a reference channel under generated system configuration and reinit",
+                text="Held on the option masks/values, server sets (IPv4/IPv6/link-local, default/equal/differing ports, three "
+                     "setters), sortlists and domain lists explored: save->init and dup reproduced the effective settings and "
+                     "ordered server list, csv round-tripped to a fixed point, and every application-supplied setting kept its "
+                     "value under arbitrary generated resolv.conf/nsswitch/environment at init and after each awaited reinit.",
+                note="ares_save_options carries IPv4 addresses without ports by design; that documented limit is applied."),
+    "C20": dict(engine="simnet", category="exploration", design_ref="DESIGN.md §4 C20",
+                technique="runtime monitoring, A/B differential in a deterministic simulator: same seeded case with unsegmented "
+                          "and with chopped transport (1-byte/random reads, partial writes, EWOULDBLOCK, deferred-write callback)",
+                text="Held on the seeded batches explored (1-20 queries queued before connect, responses up to 64 KiB, USEVC and "
+                     "TC-upgrade paths): per request identical status, callback count, timeouts and record count/TTLs in both "
+                     "runs, identical sequence of TCP messages at the servers, every TCP frame a server received decoded as a "
+                     "whole well-formed query, and a truncated UDP reply was followed by TCP unless IGNTC.",
+                note="Deterministic servers with fixed delays in both runs; how the application polls is not varied."),
     "C19": dict(engine="dsmodel", category="exploration", design_ref="DESIGN.md §4 C19",
                 technique="model-based runtime monitoring: seeded operation sequences on the real containers, "
                           "step-wise comparison with reference models, under ASan+UBSan",
